@@ -118,6 +118,11 @@ pub enum Op {
     /// fault (async flavour): the future of this client's next remove / wait / clear is dropped
     /// once it has been pending more than `after` times, as a timeout or select! would do
     CancelNext { after: u32 },
+    /// fault: the cache processor sleeps `ns` of virtual time at its (`skip`+1)-th scheduling
+    /// point from here (i.e. somewhere inside whatever it does next)
+    StallWorker { ns: u64, skip: u32 },
+    /// `n` lookups of one key in a row, recorded as ONE operation (result: number of hits)
+    GetMany { k: u64, n: u64 },
 }
 
 impl Op {
@@ -128,8 +133,17 @@ impl Op {
             | Op::Remove { k }
             | Op::Get { k, .. }
             | Op::GetMut { k, .. }
-            | Op::GetTtl { k } => Some(*k),
+            | Op::GetTtl { k }
+            | Op::GetMany { k, .. } => Some(*k),
             _ => None,
+        }
+    }
+    /// how many lookups (get / get_mut calls) the operation makes
+    pub fn lookups(&self) -> u64 {
+        match self {
+            Op::Get { .. } | Op::GetMut { .. } => 1,
+            Op::GetMany { n, .. } => *n,
+            _ => 0,
         }
     }
     pub fn is_write(&self) -> bool {
@@ -167,6 +181,8 @@ impl Op {
             Op::StallSelf { .. } => "stall_self",
             Op::WhileHolding { .. } => "while_holding",
             Op::CancelNext { .. } => "cancel_next",
+            Op::GetMany { .. } => "get_many",
+            Op::StallWorker { .. } => "stall_worker",
         }
     }
 }
